@@ -38,11 +38,11 @@ def save_meta(prop, m):
         f.write('\n')
 
 
-def scratch(prop, with_tests=False, patched=True):
+def scratch(prop, with_tests=False, patched=True, at_origin=True):
     """A copy of /repo's pexpect (patched or not) laid out like the sub-agent's worktree, *at the worktree's
     original path* (the demos locate the library either relative to themselves or by that absolute path)."""
     m = load_meta(prop)
-    tmp = m.get('origin_path') or tempfile.mkdtemp(prefix='seed_%s_' % prop)
+    tmp = (m.get('origin_path') if at_origin else None) or tempfile.mkdtemp(prefix='seed_%s_' % prop)
     if os.path.exists(tmp):
         if os.path.exists(os.path.join(tmp, '.git')):
             raise SystemExit('%s is still a git worktree: remove it first' % tmp)
@@ -145,7 +145,7 @@ def cmd_verify(prop, run_suite=True):
 
 def cmd_detect(prop, checks):
     m = load_meta(prop)
-    tmp = scratch(prop)
+    tmp = scratch(prop, at_origin=False)       # the checks need the library only: any path will do
     res = m.get('detection', {})
     try:
         for c in checks:
